@@ -74,6 +74,11 @@ func supplyQueries(e *Exec) []Disc {
 		}
 		return new(big.Int).Set(b)
 	}
+	// the eFUND that is actually locked sits in the enterprise escrow account: the figure served for the
+	// native denomination is the bank supply minus exactly that
+	if esc := w.App.BankKeeper.GetBalance(ctx, mc.ModAddr("enterprise"), feeDenom).Amount.BigInt(); esc.Cmp(locked) != 0 {
+		add("the total locked eFUND used for the circulating supply is %s, the enterprise escrow account holds %s%s", locked, esc, feeDenom)
+	}
 	denoms := make([]string, 0, len(bank))
 	for d := range bank {
 		denoms = append(denoms, d)
